@@ -23,6 +23,10 @@ pub struct MTrack {
     pub language: String,
     /// use the From<XConfig> preset constructor (timescale 1000, "und") instead of explicit fields
     pub preset: bool,
+    /// TrackConfig::track_type: 0 = the kind natural for the codec, 1 Video, 2 Audio, 3 Subtitle
+    /// (the configuration lets the caller choose it independently of the media configuration)
+    #[serde(default)]
+    pub ttype: u8,
 }
 
 #[derive(Clone, Debug, Serialize, Deserialize, PartialEq, Eq)]
@@ -45,7 +49,8 @@ pub struct MuxCase {
     pub ops: Vec<MOp>,
     /// sink the history is muxed into by `run_mux_vec`: 0 = an in-memory cursor that takes every
     /// write whole; otherwise a legal sink that accepts at most `sink & 0xff` bytes per write call
-    /// (a varying amount up to that when `sink >> 8` is non-zero)
+    /// (a varying amount up to that when bits 8..11 are non-zero); bits 12..15: the caller has
+    /// already written a free box to the sink, the muxer starts behind it (`lead_bytes`)
     #[serde(default)]
     pub sink: u16,
 }
@@ -111,10 +116,13 @@ pub fn track_config(t: &MTrack) -> Option<mp4::TrackConfig> {
     if t.preset {
         Some(mp4::TrackConfig::from(media))
     } else {
-        let track_type = match &t.kind {
-            MKind::Avc { .. } | MKind::Hevc { .. } | MKind::Vp9 { .. } => mp4::TrackType::Video,
-            MKind::Aac { .. } => mp4::TrackType::Audio,
-            MKind::Ttxt => mp4::TrackType::Subtitle,
+        let track_type = match (t.ttype, &t.kind) {
+            (1, _) => mp4::TrackType::Video,
+            (2, _) => mp4::TrackType::Audio,
+            (3, _) => mp4::TrackType::Subtitle,
+            (_, MKind::Avc { .. } | MKind::Hevc { .. } | MKind::Vp9 { .. }) => mp4::TrackType::Video,
+            (_, MKind::Aac { .. }) => mp4::TrackType::Audio,
+            (_, MKind::Ttxt) => mp4::TrackType::Subtitle,
         };
         Some(mp4::TrackConfig { track_type, timescale: t.timescale, language: t.language.clone(), media_conf: media })
     }
@@ -244,11 +252,39 @@ thread_local! {
     pub static AFTER_END: std::cell::Cell<u8> = const { std::cell::Cell::new(0) };
 }
 
+/// bytes the caller writes to the sink before handing it to the muxer (bits 12..15 of `sink`):
+/// one free box, so that the output as a whole is still a file; the muxer starts at a non-zero position
+pub fn lead_bytes(sink: u16) -> Vec<u8> {
+    let payload = match sink >> 12 {
+        0 => return Vec::new(),
+        1 => 0usize,
+        2 => 1,
+        3 => 56,
+        4 => 1000,
+        n => 8 * n as usize + 3,
+    };
+    let mut v = ((8 + payload) as u32).to_be_bytes().to_vec();
+    v.extend_from_slice(b"free");
+    v.extend(std::iter::repeat(0x5a).take(payload));
+    v
+}
+
 pub fn run_mux_vec(case: &MuxCase) -> (MuxRun<Cursor<Vec<u8>>>, Vec<u8>) {
+    let lead = lead_bytes(case.sink);
+    let start = || {
+        let mut c = Cursor::new(lead.clone());
+        c.set_position(lead.len() as u64);
+        c
+    };
+    if case.sink & 0xfff == 0 && !lead.is_empty() {
+        let mut r = run_mux(case, start());
+        let bytes = r.writer.take().map(|c| c.into_inner()).unwrap_or_default();
+        return (r, bytes);
+    }
     if case.sink != 0 {
         let max = (case.sink & 0xff).max(1) as usize;
-        let vary = (case.sink >> 8) as u64;
-        let mut r = run_mux(case, crate::io::ShortStream::new(Cursor::new(Vec::new()), max, vary, 0));
+        let vary = ((case.sink >> 8) & 0xf) as u64;
+        let mut r = run_mux(case, crate::io::ShortStream::new(start(), max, vary, 0));
         let bytes = r.writer.take().map(|s| s.inner.into_inner()).unwrap_or_default();
         return (MuxRun { writer: None, calls: r.calls, model: r.model, all_ok: r.all_ok, panicked: r.panicked, tracks_added: r.tracks_added }, bytes);
     }
@@ -476,14 +512,19 @@ pub fn assemble_history(major: [u8; 4], minor: u32, compat: Vec<[u8; 4]>, movie_
 /// a configuration add_track must reject
 pub fn invalid_track() -> impl Strategy<Value = MTrack> {
     prop_oneof![
-        (valid_kind(), lang3()).prop_map(|(kind, language)| MTrack { kind, timescale: 0, language, preset: false }),
-        (prop::collection::vec(any::<u8>(), 0..4), lang3()).prop_map(|(sps, language)| MTrack { kind: MKind::Avc { width: 4, height: 4, sps, pps: vec![1] }, timescale: 1000, language, preset: false }),
-        Just(MTrack { kind: MKind::Avc { width: 4, height: 4, sps: vec![1, 2, 3, 4], pps: vec![7; 65536] }, timescale: 1000, language: "und".into(), preset: false }),
+        (valid_kind(), lang3()).prop_map(|(kind, language)| MTrack { kind, timescale: 0, language, preset: false, ttype: 0 }),
+        (prop::collection::vec(any::<u8>(), 0..4), lang3()).prop_map(|(sps, language)| MTrack { kind: MKind::Avc { width: 4, height: 4, sps, pps: vec![1] }, timescale: 1000, language, preset: false, ttype: 0 }),
+        Just(MTrack { kind: MKind::Avc { width: 4, height: 4, sps: vec![1, 2, 3, 4], pps: vec![7; 65536] }, timescale: 1000, language: "und".into(), preset: false, ttype: 0 }),
     ]
 }
 
 pub fn valid_track() -> impl Strategy<Value = MTrack> {
-    (valid_kind(), crate::gen::timescale_strategy(), lang3(), prop::bool::weighted(0.1)).prop_map(|(kind, timescale, language, preset)| MTrack { kind, timescale, language, preset })
+    (valid_kind(), crate::gen::timescale_strategy(), lang3(), prop::bool::weighted(0.1), prop_oneof![5 => Just(0u8), 1 => 1u8..4]).prop_map(|(kind, timescale, language, preset, ttype)| MTrack { kind, timescale, language, preset, ttype: if preset { 0 } else { ttype } })
+}
+
+/// the sink a history is muxed into (see `MuxCase::sink`): mostly a plain cursor at position 0
+pub fn sink_strategy() -> impl Strategy<Value = u16> {
+    prop_oneof![14 => Just(0u16), 1 => (1u16..=40, 0u16..3).prop_map(|(m, v)| m | (v << 8)), 1 => (1u16..8).prop_map(|l| l << 12), 1 => (1u16..=40, 1u16..8).prop_map(|(m, l)| m | (l << 12))]
 }
 
 /// histories in the documented-valid domain
@@ -497,7 +538,7 @@ pub fn mux_history_bits(max_tracks: usize, max_ops: usize, bad_weight: f64, tick
         prop::collection::vec(if bad_weight > 0.0 { prop_oneof![9 => valid_track(), 1 => invalid_track()].boxed() } else { valid_track().boxed() }, 1..=max_tracks),
         prop::collection::vec(raw_op(bad_weight), 0..=max_ops),
         (prop_oneof![Just(0u16), any::<u16>(), Just(u16::MAX)], 0u8..5, prop_oneof![4 => Just(0u8), 1 => Just(1u8), 1 => Just(2u8)]),
-        prop_oneof![14 => Just(0u16), 1 => (1u16..=40, 0u16..3).prop_map(|(m, v)| m | (v << 8))],
+        sink_strategy(),
     )
         .prop_map(move |((major, minor, compat, ts), tracks, raw, (cts_from, sync_mode, size_mode), sink)| {
             let mut c = assemble_history(major, minor, compat, ts, tracks, raw, &HistOpts { cts_from, sync_mode, size_mode, tick_bits });
